@@ -33,6 +33,10 @@ type C04Spec struct {
 	IsSig   bool   `json:"is_sig"`
 	Nonrev  bool   `json:"nonrev"`
 	Restart int    `json:"restart"` // restart the holder before every Restart-th session (0 = never)
+	// Keyshare: the holder's secret is shared with a keyshare server (a party that must learn nothing about
+	// attributes); 0 none, 1 honest server, 2 server answering with a challenge of its own choosing,
+	// 3 server answering with an incomplete message
+	Keyshare int `json:"keyshare,omitempty"`
 }
 
 func drawC04(rt *rapid.T) C04Spec {
@@ -45,6 +49,11 @@ func drawC04(rt *rapid.T) C04Spec {
 	s.IsSig = rapid.Bool().Draw(rt, "issig")
 	s.Nonrev = rapid.IntRange(0, 3).Draw(rt, "nonrev") == 0
 	s.Restart = rapid.IntRange(0, 3).Draw(rt, "restart")
+	if rapid.IntRange(0, 5).Draw(rt, "keyshare") == 0 {
+		s.Keyshare = rapid.IntRange(1, 3).Draw(rt, "kssmode")
+		s.Key = rapid.SampledFrom(kernel.KeyNamesZ128()).Draw(rt, "ksskey")
+		s.Nonrev = false
+	}
 	return s
 }
 
@@ -80,7 +89,189 @@ func execC04(r *kernel.Run, s C04Spec) {
 	}
 }
 
+// execC04Keyshare: two credentials of one holder under a key that takes part in the keyshare protocol, one
+// disclosure session over both. Whatever the keyshare server answers, what the holder sends out afterwards
+// must not contain hidden values, neither verbatim nor recoverable by dividing a response by the challenge
+// it was computed with.
+func execC04Keyshare(r *kernel.Run, s C04Spec) {
+	kernel.SeedLibrary(r.T, s.LibSeed)
+	w := newWorld(r, s.ValSeed)
+	key := kernel.GetKey(s.Key)
+	pk := key.Pk
+	userSecret, err := gabi.NewKeyshareSecret()
+	if err != nil {
+		panic(err)
+	}
+	kssSecret, err := gabi.NewKeyshareSecret()
+	if err != nil {
+		panic(err)
+	}
+	var attrs [][]*big.Int
+	for c := 0; c < 2; c++ {
+		var a []*big.Int
+		for _, cl := range s.Classes {
+			a = append(a, attrValue(cl+c, pk.Params.Lm, w.hr))
+		}
+		attrs = append(attrs, a)
+	}
+	k := len(s.Classes)
+	mask := int(s.ValSeed % uint64(1<<k))
+	disclosed := maskToIndices(mask, k)
+	ctx, nonce := big.NewInt(1), randBits(w.hr, 80)
+	var builders gabi.ProofBuilderList
+	for c := 0; c < 2; c++ {
+		cred := keyshareCred(w, key, userSecret, kssSecret, attrs[c], false)
+		b, err := cred.CreateDisclosureProofBuilder(disclosed, nil, false)
+		if err != nil {
+			r.Violate("C04:cannot-build-proof", map[string]any{"keyshare": s.Keyshare}, "%v", err)
+			return
+		}
+		builders = append(builders, b)
+	}
+	r.Logf("keyshare mode=%d key=%s k=%d mask=%b", s.Keyshare, s.Key, k, mask)
+	r.Distinct(fmt.Sprintf("keyshare mode=%d classes=%v mask=%d sig=%v", s.Keyshare, s.Classes, mask, s.IsSig))
+	part := map[string]*gabikeys.PublicKey{key.Name: pk}
+	rz, err := gabi.NewProofRandomizers()
+	if err != nil {
+		panic(err)
+	}
+	cr, hi, err := gabi.KeyshareUserCommitmentRequest(builders, rz, part)
+	if err != nil {
+		r.Violate("C04:keyshare-exchange-failed", map[string]any{"stage": "user-round1"}, "%v", err)
+		return
+	}
+	rnd, comms, err := gabi.NewKeyshareCommitments(kssSecret, []*gabikeys.PublicKey{pk, pk})
+	if err != nil {
+		r.Violate("C04:keyshare-exchange-failed", map[string]any{"stage": "server-round1"}, "%v", err)
+		return
+	}
+	for i, b := range builders {
+		b.SetProofPCommitment(comms[i])
+	}
+	rr, ch, err := gabi.KeyshareUserResponseRequest(builders, rz, hi, ctx, nonce, s.IsSig)
+	if err != nil {
+		r.Violate("C04:keyshare-exchange-failed", map[string]any{"stage": "user-round2"}, "%v", err)
+		return
+	}
+	own := new(big.Int).Set(ch)
+	var crw gabi.KeyshareCommitmentRequest
+	mustUnmarshal(mustJSON(cr), &crw)
+	var rrw gabi.KeyshareResponseRequest[string]
+	mustUnmarshal(mustJSON(rr), &rrw)
+	pp, err := gabi.KeyshareResponse(kssSecret, rnd, crw, rrw, part)
+	if err != nil {
+		r.Violate("C04:keyshare-exchange-failed", map[string]any{"stage": "server-round2"}, "%v", err)
+		return
+	}
+	r.Eval(1)
+	answers := make([]*gabi.ProofP, 2)
+	for i := range answers {
+		var a gabi.ProofP
+		mustUnmarshal(mustJSON(pp), &a) // one decoded message per key, as a holder application receives them
+		switch s.Keyshare {
+		case 2:
+			r.Fault("byzantine-keyshare-server")
+			a.C, a.SResponse = pow2(3000), big.NewInt(1)
+		case 3:
+			r.Fault("byzantine-keyshare-server")
+			if i == 0 {
+				a.SResponse = nil
+			} else {
+				a.C = nil
+			}
+		}
+		answers[i] = &a
+	}
+	var pl gabi.ProofList
+	var berr error
+	if p := guard(func() { pl, berr = builders.BuildDistributedProofList(ch, answers) }); p != "" {
+		r.Violate("C04:holder-panics-on-keyshare-answer", map[string]any{"keyshare": s.Keyshare}, "BuildDistributedProofList panics on the keyshare server's answer: %s", p)
+		return
+	}
+	det := map[string]any{"keyshare": s.Keyshare}
+	if ch.Cmp(own) != 0 {
+		r.Violate("C04:holder-challenge-overwritten", det, "the holder's own challenge was overwritten by the keyshare server's answer")
+	}
+	if berr != nil {
+		if s.Keyshare == 1 {
+			r.Violate("C04:keyshare-exchange-failed", map[string]any{"stage": "merge"}, "%v", berr)
+		} else {
+			r.Probe("rogue-keyshare-answer-refused")
+		}
+		return
+	}
+	wire := mustJSON(pl)
+	if s.Keyshare == 1 {
+		v := verifyWire(wire, Session{Context: ctx, Nonce: nonce, IsSig: s.IsSig, Keys: []*gabikeys.PublicKey{pk, pk}, Labels: []string{"kss", "kss"}})
+		if !v.Accepted {
+			r.Violate("C04:honest-proof-rejected", det, "keyshare session: merged proof list rejected (decode=%v panic=%s)", v.DecodeErr, v.Panic)
+			return
+		}
+		r.Probe("keyshare-session-accepted")
+	}
+	// what went out: every response must hide its value under the holder's own challenge
+	want := map[int]bool{}
+	for _, i := range disclosed {
+		want[i] = true
+	}
+	for c, pr := range pl {
+		pd, ok := pr.(*gabi.ProofD)
+		if !ok {
+			continue
+		}
+		if pd.C.Cmp(own) != 0 && s.Keyshare != 1 {
+			r.Probe("outgoing-proof-carries-foreign-challenge")
+		}
+		ms := append([]*big.Int{new(big.Int).Add(userSecret, kssSecret)}, attrs[c]...)
+		for i, resp := range pd.AResponses {
+			if i >= len(ms) || resp == nil || pd.C == nil || pd.C.Sign() == 0 {
+				continue
+			}
+			m := ms[i]
+			if i == 0 {
+				m = userSecret
+			}
+			if uint(m.BitLen()) > pk.Params.Lm {
+				h := sha256.Sum256(m.Bytes())
+				m = new(big.Int).SetBytes(h[:])
+			}
+			if m.Sign() > 0 && new(big.Int).Div(resp, pd.C).Cmp(m) == 0 {
+				r.Violate("C04:hidden-value-recoverable-from-response", det, "proof %d: response of hidden index %d divided by the challenge in the proof is the hidden value itself (the challenge is the keyshare server's, %d bits)", c, i, pd.C.BitLen())
+			}
+		}
+		emitted := leafBytes(kernel.MustDecode(mustJSON(gabi.ProofList{pd})))
+		for i := 1; i < len(ms); i++ {
+			if want[i] || ms[i].BitLen() < 64 {
+				continue
+			}
+			legit := false // the same value is legitimately on the wire for a chosen index (of either credential)
+			for _, a := range attrs {
+				for j := range want {
+					if j >= 1 && j-1 < len(a) && a[j-1].Cmp(ms[i]) == 0 {
+						legit = true
+					}
+				}
+			}
+			if legit {
+				continue
+			}
+			r.Probe("scanned-hidden-value")
+			for _, nd := range needles(ms[i]) {
+				for _, e := range emitted {
+					if bytes.Contains(e, nd) {
+						r.Violate("C04:hidden-value-on-the-wire", det, "keyshare session: value of hidden attribute %d of credential %d appears in what the holder emitted", i, c)
+					}
+				}
+			}
+		}
+	}
+}
+
 func execC04Bubble(r *kernel.Run, s C04Spec) {
+	if s.Keyshare != 0 {
+		execC04Keyshare(r, s)
+		return
+	}
 	kernel.SeedLibrary(r.T, s.LibSeed)
 	w := newWorld(r, s.ValSeed)
 	key := kernel.GetKey(s.Key)
